@@ -1,2 +1,2 @@
-    requires tracker_wf(self),
+    requires tracker_wf_publish(self),
     ensures *final(w) == *old(w), r == old(w).tracker.freed, // [C05:gc-threshold-is-the-watermark] [C01:gc-threshold-is-the-watermark]
